@@ -810,6 +810,7 @@ impl Property for C10 {
             components_stub: vec![
                 "hasher key source (seeded seam instead of OS randomness)".into(),
                 "input/output streams (simulated, benign schedules only)".into(),
+                "clocks of the fresh process of every scenario and of one process of the process arm: read through a preloaded shim (sim/clockshim) that skews the wall clock and lets 0.7-90 s pass per reading".into(),
             ],
             step_unit: "stream calls in-process + process spawns",
             history_measure: "distinct (common observation, number of distinct dictionary-order probe logs seen across the configurations of the scenario)",
